@@ -83,6 +83,17 @@ func init() {
 		if !m.branch(ok) {
 			return TupleVal{Pointer{}, m.newError(m.in.Str("invalid did"))}
 		}
+		// grammar facts ("did:" method ":" id ..., method colon-free) in the cheap form the handlers need:
+		// the method is "sid" / "key" exactly when the text starts with "did:sid:" / "did:key:"
+		{
+			meth := m.in.UF("didmethod", SString, s)
+			for _, k := range []string{"sid", "key"} {
+				pre, is := m.in.StrPrefixOf(m.in.Str("did:"+k+":"), s), m.in.Eq(meth, m.in.Str(k))
+				m.addPC(m.in.Or(m.in.Not(pre), is))
+				m.addPC(m.in.Or(pre, m.in.Not(is)))
+			}
+			m.addPC(m.in.StrPrefixOf(m.in.Str("did:"), s))
+		}
 		st := under(dt).(*types.Struct)
 		f := make([]Value, st.NumFields())
 		for i := 0; i < st.NumFields(); i++ {
